@@ -218,6 +218,13 @@ class FnCtx:
             else:
                 b = self.materialize(base)
             s = '%s.%s' % (b, name)
+        # a member of a modelled (external) record that the model keeps behind a pointer (@field_map CEnt.second = kid)
+        if mid not in self.lw.fields and bt is not None:
+            rt_ = bt.to if bt.kind in ('ptr', 'ref') else bt
+            if rt_.is_record() and self.lw.rec_of(rt_) is None:
+                fm = self.lw.cfg.get('field_map', {}).get('%s.%s' % (self.lw.ext_record_cname(rt_), name))
+                if fm:
+                    s = '(*%s%s%s)' % (b, '->' if n.get('isArrow') else '.', fm)
         # ownership discipline (DESIGN.md 4.4): every access to a declared shared field is an obligation
         fi = self.lw.fields.get(mid)
         if fi is not None:
